@@ -22,6 +22,7 @@ RULE = (
     'image-enumeration distances.  Non-trivial = the model finds at least one collective pair and at least one jump '
     'whose transit exceeds the window; distinct = SHA-1 of (jump table, sites, window, cut-off).'
 )
+RULE += ' Added in rounds 5-10: injected tables in 5 row orders, 4 kinds of row labels and permuted column orders; cut-offs 0, negative, 1e-9; windows 0 and negative.'
 ASSUMPTIONS = [
     'cut-offs are kept 1e-6 A away from every site-site distance (the comparison is strict <)',
     'the attempt frequency entering the default window is read from the real TrajectoryMetrics',
